@@ -259,7 +259,7 @@ func stringBytes(s *Stream) ([]byte, error) {
 			fallthrough
 		default:
 			// multi bytes character
-			if !utf8.FullRune(s.buf[cursor : len(s.buf)-1]) {
+			if !utf8.FullRune(s.buf[cursor:s.length]) {
 				s.cursor = cursor
 				if s.read() {
 					_, cursor, p = s.stat()
